@@ -119,7 +119,7 @@ func LayoutItems(runs []Run, faces []*canvas.FontFace, indent float64, justified
 	return text.GlyphsToItems(Glyphs(runs, faces), indent, align)
 }
 
-var tokText = map[string]string{"on": "on", "women": "women", "wo_men": "wo\u00ADmen", "new2": "new", "ne_w2": "ne\u00ADw", "sp": " ", "nbsp": "\u00A0", "idsp": "\u3000", "hy": "-", "nl": "\n", "crlf": "\r\n", "cr": "\r",
+var tokText = map[string]string{"on": "on", "women": "women", "wo_men": "wo\u00ADmen", "new2": "new", "ne_w2": "ne\u00ADw", "sp": " ", "nbsp": "\u00A0", "idsp": "\u3000", "hy": "-", "nl": "\n", "crlf": "\r\n", "cr": "\r", "wo_zmen": "wo\u200Bmen",
 	"heb": "\u05D0\u05D1\u05D2"} // Hebrew letters: the bundled fonts have no glyphs for them (.notdef advances), bidi levels and span geometry do not depend on that
 
 // TokenRuns builds the real text of a token list of spec/Layout.tla: "new2" is set in the second face.
